@@ -1,3 +1,4 @@
+pub mod crash;
 pub mod interpose;
 pub mod model;
 pub mod node;
